@@ -86,6 +86,7 @@ pub struct Instance {
     pub accept_few: bool,
     /// the async transport supports gathering writes (TcpStream does)
     pub vectored: bool,
+    pub init_unfilled: bool,
     /// the async transport's flush needs this many extra polls after a write (websocket, TLS)
     pub slow_flush: u8,
     /// compare with the other implementation on histories both can execute
@@ -120,6 +121,7 @@ impl Instance {
             isi_via_handshake: false,
             accept_few: false,
             vectored: false,
+            init_unfilled: false,
             slow_flush: 0,
             differential: false,
         }
